@@ -85,22 +85,23 @@ constexpr Cfg cfg_get(int want) // want < 0: returns the count in .k
 constexpr int NCFG = cfg_get(-1).k;
 static_assert(NCFG > 0, "empty configuration space");
 
-static void step(const Cfg c)
+// verdicts of the executed configuration (asserted once, after the dispatch)
+static bool r_fits, r_frame, r_live, r_distinct, r_designated, r_others, r_noop;
+static int g_bad, g_stale;
+static Db* g_db;
+
+__attribute__((noinline)) static void step(const Cfg& c)
 {
-  vf_eloc_init();
-  Db* db = vf_db_valid(c.l);
+  Db* db = g_db;
+  int used = c.l[0] + c.l[1] + c.l[2];
+  vf_db_lists(db, c.l);
   // the identifier argument
   int iuid;
   if (c.wj >= 0) iuid = db->_p[c.wj]._r[c.wq];
-  else if (c.wj == W_NEG) { iuid = vf_nondet_int(); vf_assume(iuid < 0); }
-  else if (c.wj == W_BIG) { iuid = vf_nondet_int(); vf_assume(iuid >= VF_NUID); }
-  else
-  {
-    iuid = vf_range(0, VF_NUID - 1);
-    vf_assume(c.wj == W_STALE ? db->_uidcol[iuid] < 0 : db->_uidcol[iuid] >= 0);
-    for (int t = 0; t < VF_NT; t++)
-      for (int i = 0; i < c.l[t]; i++) vf_assume(db->_p[t]._r[i] != iuid);
-  }
+  else if (c.wj == W_NEG) { iuid = g_bad; vf_assume(iuid < 0); }
+  else if (c.wj == W_BIG) { iuid = g_bad; vf_assume(iuid >= VF_NUID); }
+  else if (c.wj == W_STALE) iuid = g_stale;
+  else iuid = g_pool[used]; // live, no role
   static VfTab pre, post, ref;
   vf_assume(vf_snapshot(db, pre));
   ref = pre;
@@ -108,11 +109,12 @@ static void step(const Cfg c)
   VfLoc loc(c.t);
   db->setLocatorByUID(iuid, loc.get(), c.k, c.clean); // REAL code
 
-  bool fits = vf_snapshot(db, post);
-  vf_assert_id(fits, "tables stay within the modelled sizes");
-  vf_assert_id(vf_same_uid_and_values(pre, post), "identifier table, dimensions and values untouched");
-
+  r_fits  = vf_snapshot(db, post);
+  r_frame = vf_same_uid_and_values(pre, post);
+  r_live  = vf_lists_live(post);
+  r_distinct = vf_lists_distinct(post);
   const bool valid = c.wj > W_BIG;
+  r_designated = r_others = r_noop = true;
 #if VF_MODE == 0
   // ---- reference: take the identifier out (ranks behind it move up), clean, then place it
   if (valid)
@@ -133,12 +135,10 @@ static void step(const Cfg c)
       ref.lst[c.t][kk] = iuid;
     }
   }
-  vf_assert_id(vf_lists_live(post), "every role designates a live column");
-  vf_assert_id(vf_lists_distinct(post), "no column has two roles");
   if (valid && c.t >= 0)
   {
     int kk = c.k < 0 ? post.len[c.t] - 1 : c.k;
-    vf_assert_id(kk >= 0 && kk < post.len[c.t] && post.lst[c.t][kk] == iuid, "the designated column holds the designated role");
+    r_designated = kk >= 0 && kk < post.len[c.t] && post.lst[c.t][kk] == iuid;
   }
   bool same = true;
   for (int j = 0; j < VF_NELOC; j++)
@@ -147,31 +147,42 @@ static void step(const Cfg c)
     for (int i = 0; i < ref.len[j]; i++)
       if (post.lst[j][i] != ref.lst[j][i]) same = false;
   }
-  if (valid) vf_assert_id(same, "other columns keep their role type and relative rank");
-  else vf_assert_id(same, "invalid identifier: no role changes");
+  if (valid) r_others = same;
+  else r_noop = same;
 #elif VF_MODE == 1
-  vf_assert_id(vf_lists_live(post), "ranks of a role type are consecutive: every rank up to the count designates a live column");
-  vf_assert_id(vf_lists_distinct(post), "no column has two roles");
-  vf_assert_id(c.k < post.len[c.t] && post.lst[c.t][c.k] == iuid, "the designated column holds the designated role");
-#else
-  vf_assert_id(vf_lists_live(post), "every role designates a live column");
-  vf_assert_id(vf_lists_distinct(post), "no column has two roles");
+  r_designated = c.k < post.len[c.t] && post.lst[c.t][c.k] == iuid;
 #endif
-  vf_witness();
 }
 
 template<int I> struct Leaf
 {
-  __attribute__((noinline)) static void run()
-  {
-    constexpr Cfg c = cfg_get(I);
-    static_assert(c.valid, "configuration index out of range");
-    step(c);
-  }
+  static constexpr Cfg c = cfg_get(I);
+  static_assert(c.valid, "configuration index out of range");
+  __attribute__((noinline)) static void run() { step(c); }
 };
 
 extern "C" void k_set_locator()
 {
+  vf_eloc_init();
+  g_db    = vf_db_tables();
+  g_bad   = vf_nondet_int();
+  g_stale = vf_range(0, VF_NUID - 1);
+#if VF_MODE == 2
+  vf_assume(g_db->_uidcol[g_stale] < 0);
+#endif
   int cfg = vf_range(0, NCFG - 1);
   VfDispatch<Leaf, 0, NCFG - 1>::go(cfg);
+
+  vf_assert_id(r_fits, "tables stay within the modelled sizes");
+  vf_assert_id(r_frame, "identifier table, dimensions and values untouched");
+#if VF_MODE == 1
+  vf_assert_id(r_live, "ranks of a role type are consecutive: every rank up to the count designates a live column");
+#else
+  vf_assert_id(r_live, "every role designates a live column");
+#endif
+  vf_assert_id(r_distinct, "no column has two roles");
+  vf_assert_id(r_designated, "the designated column holds the designated role");
+  vf_assert_id(r_others, "other columns keep their role type and relative rank");
+  vf_assert_id(r_noop, "invalid identifier: no role changes");
+  vf_witness();
 }
